@@ -13,25 +13,48 @@ ASSUMPTIONS = ["abstract record interface (c08_abs.h): rcode/flags/opcode/one qu
 EXTRA = os.environ.get("VP_C08_DEFS", "").split()  # experiments, e.g. VP_C08_DEFS="-DKF_qcache_soa_ttl"
 
 LIB = ["src/lib/ares_library_init.c"]
-KEYREAL = LIB + ["src/lib/str/ares_buf.c", "src/lib/str/ares_str.c", "src/lib/record/ares_dns_mapping.c"]
+KEYREAL = LIB + ["src/lib/str/ares_buf.c", "src/lib/str/ares_str.c", "src/lib/record/ares_dns_mapping.c", "src/lib/util/ares_math.c"]
 KSUP = ["vp_rt.c", "valloc.c", "memloops.c", "slist_ref.c", "strvp_ref.c"]
 
 
 KIND = ["request's key", "request's key in another case spelling", "another key"]
 
 
+def uws(ne):
+    """loop bounds derived from the entry count (ne live entries + 1) and the longest key (17 chars + NUL)"""
+    n = ne + 2
+    return ["ares_qcache_expire.0:%d" % n, "vp_strvp_key_eq.0:19", "unlink_node.0:%d" % n, "find.0:%d" % n,
+            "ares_htable_strvp_destroy.0:%d" % n, "ares_slist_destroy.0:%d" % n, "slist_link.0:%d" % n,
+            # <= 3 RRs per response (C08_MAXRR): section loops see at most 3 records
+            "ares_qcache_calc_minttl.0:5", "ares_qcache_calc_minttl.1:5", "ares_qcache_soa_minimum.0:5"]
+
+
 def jobs(tier, seed):
     J = []
-    W_INS = ["end", "noerror cached", "nxdomain cached", "noerror with soa cached", "refused rcode/tc", "refused max_ttl 0",
-             "refused ttl 0", "replayed", "expired, not replayed"]
+    RC = [(0, "noerror", "rcode NOERROR"), (3, "nxdomain", "rcode NXDOMAIN"), (-1, "otherrc", "any rcode other than NOERROR/NXDOMAIN")]
     for old in (None, 0, 1, 2):
-        J.append(dict(name="c08_insert_%s" % ("empty" if old is None else "old%d" % old), harness="qcache_step.c",
-                      defines=["-DOP=0"] + ([] if old is None else ["-DOLD=%d" % old]), real=KEYREAL, support=KSUP, unwind=24,
-                      kf_group="c08_insert", witnesses=W_INS + (["older entry replayed"] if old in (0, 1) else []),
-                      bound="fresh cache (any max_ttl) %s; response with any rcode 0..23, any 16 flag bits, 0..3 RRs each with any "
-                            "section/type/TTL/SOA MINIMUM; any now in 0..2^40 s; ONE ares_qcache_insert, then ONE ares_qcache_fetch of "
-                            "the same request at any later time" %
-                            ("without entries" if old is None else "holding one older entry (%s, any times, indexed or not)" % KIND[old])))
+        for rc, rcname, rcdesc in RC:
+            if old is not None and tier == "quick" and rc < 0:
+                continue
+            wit = ["end"]
+            if rc == 0:
+                wit += ["noerror cached", "noerror with soa cached", "refused rcode/tc", "refused ttl 0", "replayed", "expired, not replayed"]
+            elif rc == 3:
+                wit += ["nxdomain cached", "refused rcode/tc", "refused ttl 0", "replayed", "expired, not replayed"]
+            else:
+                wit += ["refused rcode/tc"]
+            if old in (0, 1):
+                wit.append("older entry replayed")
+            if old is None and rc >= 0:
+                wit.append("refused max_ttl 0")
+            J.append(dict(name="c08_insert_%s_%s" % ("empty" if old is None else "old%d" % old, rcname), harness="qcache_step.c",
+                          defines=["-DOP=0", "-DRCODE=%d" % rc] + ([] if old is None else ["-DOLD=%d" % old]), real=KEYREAL,
+                          support=KSUP, unwind=24, unwindset=uws(2), kf_group="c08_insert", witnesses=wit,
+                          bound="fresh cache (any max_ttl) %s; response with %s, any 16 flag bits, 0..3 RRs each with any "
+                                "section/type/TTL/SOA MINIMUM; any now in 0..2^40 s; ONE ares_qcache_insert, then ONE ares_qcache_fetch "
+                                "of the same request at any later time" %
+                                ("without entries" if old is None else "holding one older entry (%s, any times, indexed or not)" % KIND[old],
+                                 rcdesc)))
     shapes = [()] + [(a,) for a in (0, 1, 2)] + [(0, 0), (0, 1), (0, 2), (2, 0), (2, 2)]
     if tier != "quick":
         shapes += [(1, 0), (1, 1), (1, 2), (2, 1), (0, 1, 2), (0, 0, 2), (2, 0, 0), (0, 0, 0)]
@@ -42,13 +65,71 @@ def jobs(tier, seed):
         desc = "%d entries (%s; any max_ttl, any insert/expire times with 0 < life <= max_ttl, each indexed or shadowed)" % (
             ne, ", ".join(KIND[k] for k in sh) if ne else "empty")
         J.append(dict(name="c08_fetch_" + tag, harness="qcache_step.c", defines=["-DOP=1", "-DNE=%d" % ne] + kd, real=KEYREAL,
-                      support=KSUP, unwind=24,
+                      support=KSUP, unwind=24, unwindset=uws(ne),
                       witnesses=["end", "miss"] + (["expired entry discarded"] if ne else []) + (["hit"] if any(k != 2 for k in sh) else []),
                       bound="arbitrary valid cache state with " + desc + ", any now >= insert times; ONE ares_qcache_fetch, then "
                             "ares_qcache_destroy"))
         J.append(dict(name="c08_flush_" + tag, harness="qcache_step.c", defines=["-DOP=2", "-DNE=%d" % ne] + kd, real=KEYREAL,
-                      support=KSUP, unwind=24, witnesses=["end"] + (["flushed entries"] if ne else []),
+                      support=KSUP, unwind=24, unwindset=uws(ne),
+                      witnesses=["end"] + (["flushed entries"] if ne else []),
                       bound="arbitrary valid cache state with " + desc + "; ONE ares_qcache_flush, then a fetch"))
+    # (b) key kernel: one attribute varies (symbolic in both requests) around two concrete baselines; field lemma
+    KSZ = "-DVP_SIZES=32,48,56,64,128"  # ares_buf_t 48, record handle 56, key buffer 32 (64/128 infeasible)
+    KUW = ["ares_buf_ensure_space.0:3", "strcasecmp.0:32", "vp_realloc.0:34"]
+    VARY = ["opcode (5 valid opcodes)", "RD/CD combination (4)", "qtype over {A,NS,AAAA,ANY,65280,65281}", "class (5 valid classes)"]
+    BASES = ["QUERY rd A IN", "UPDATE cd 65280 ANY"]
+    for v in range(4):
+        for base in (0, 1):
+            for fi in (range(4) if v == 1 else (None,)):
+                if v == 1 and tier == "quick" and base == 1 and fi != 2:
+                    continue
+                wit = ["end", "equal keys"] + (["different keys"] if fi != 3 else []) + \
+                      (["same key despite other flags"] if v == 1 else [])
+                J.append(dict(name="c08_key_b%d_%s%s" % (base, ["opcode", "flags", "type", "class"][v], "" if fi is None else "_%d" % fi),
+                              harness="qcache_key.c", defines=["-DVARY=%d" % v, "-DBASE=%d" % base] + ([] if fi is None else ["-DFI=%d" % fi]),
+                              real=KEYREAL, support=["vp_rt.c", "valloc.c", "memloops.c"], unwind=34, kf_group="c08_key", witnesses=wit,
+                              bound="two one-question requests equal to the baseline (%s, names aB. / Ab) except the %s: every unordered "
+                                    "pair of values%s; real ares_qcache_calc_key on both, keys compared with the real ares_strcaseeq" %
+                                    (BASES[base], VARY[v], "" if fi is None else " whose first RD/CD combination is #%d (other 14 header "
+                                     "bits all-clear vs all-set, and each toggled on its own)" % fi)))
+    kshapes = [(0, 0, 0, 1), (1, 0, 1, 1), (2, 0, 2, 0), (2, 1, 2, 0), (1, 0, 2, 0), (3, 0, 3, 0), (2, 0, 3, 1)]
+    if tier != "quick":
+        kshapes = [(a, d1, b, d2) for a in range(4) for b in range(a, 4) for d1 in (0, 1) for d2 in (0, 1)]
+    for (l1, d1, l2, d2) in kshapes:
+        J.append(dict(name="c08_key_name_l%d%s_l%d%s" % (l1, "d" if d1 else "", l2, "d" if d2 else ""), harness="qcache_key.c",
+                      defines=["-DVARY=4", "-DBASE=0", "-DL1=%d" % l1, "-DDOT1=%d" % d1, "-DL2=%d" % l2, "-DDOT2=%d" % d2, KSZ],
+                      real=KEYREAL, support=["vp_rt.c", "valloc.c", "memloops.c"], unwind=9, unwindset=KUW, kf_group="c08_key",
+                      witnesses=["end"] + (["equal keys"] if l1 == l2 else []) + (["different keys"] if l1 != l2 or l1 > 0 else []),
+                      bound="two one-question requests QUERY rd A IN with names of %d and %d symbolic characters over {a,A,b,B,-}%s%s; "
+                            "real ares_qcache_calc_key on both, keys compared with the real ares_strcaseeq" %
+                            (l1, l2, ", first with trailing dot" if d1 else "", ", second with trailing dot" if d2 else "")))
+    J.append(dict(name="c08_key_fields", harness="qcache_key.c", defines=["-DVARY=5"], real=KEYREAL,
+                  support=["vp_rt.c", "valloc.c", "memloops.c"], unwind=9,
+                  bound="field lemma: for every 16-bit qtype pair, valid class pair and valid opcode pair the real mnemonic functions "
+                        "return non-empty '|'-free strings, different for different values (except types spelled UNKNOWN)"))
+    # (c) TTL views with the REAL record code
+    RECREAL = LIB + ["src/lib/record/ares_dns_record.c", "src/lib/record/ares_dns_write.c", "src/lib/record/ares_dns_name.c",
+                     "src/lib/record/ares_dns_mapping.c", "src/lib/record/ares_dns_multistring.c", "src/lib/str/ares_buf.c",
+                     "src/lib/str/ares_str.c", "src/lib/dsa/ares_array.c", "src/lib/dsa/ares_llist.c", "src/lib/util/ares_math.c"]
+    J.append(dict(name="c08_ttl", harness="ttl_view.c", real=RECREAL, support=["vp_rt.c", "valloc.c", "memloops.c"], unwind=20,
+                  unwindset=["vp_realloc.0:260"], leak=True, kf_group="c08_ttl", witnesses=["end", "floored at zero", "reduced"],
+                  bound="response with question a.b A IN and one A answer built through the public record API, any id/TTL/address, any "
+                        "ttl_decrement; ares_dns_rr_get_ttl() and the TTL bytes of ares_dns_write()"))
+    J.append(dict(name="c08_ttl_ai", harness="ttl_view.c", defines=["-DWITH_AI"],
+                  real=RECREAL + ["src/lib/ares_parse_into_addrinfo.c", "src/lib/ares_getaddrinfo.c", "src/lib/ares_addrinfo_localhost.c", "src/lib/ares_freeaddrinfo.c"],
+                  support=["vp_rt.c", "valloc.c", "memloops.c"], unwind=20, unwindset=["vp_realloc.0:260"], leak=True,
+                  kf_group="c08_ttl", witnesses=["end", "floored at zero", "reduced", "addrinfo node"],
+                  bound="as c08_ttl, plus ai_ttl of ares_parse_into_addrinfo() (what ares_getaddrinfo reports)"))
+    # (d) server-list change => flush
+    for ns, nc in ((0, 1), (1, 1), (1, 2), (2, 1), (2, 2), (1, 0)) + (((2, 3), (3, 2)) if tier != "quick" else ()):
+        wit = ["end"] + (["set changed, flushed"] if (ns, nc) != (0, 0) else []) + (["list unchanged"] if ns >= 1 and nc >= ns else []) + \
+              (["order changed only"] if ns >= 2 and nc >= 2 else [])
+        J.append(dict(name="c08_srvflush_ns%d_nc%d" % (ns, nc), harness="servers_flush.c", defines=["-DNS=%d" % ns, "-DNC=%d" % nc],
+                      real=LIB + ["src/lib/dsa/ares_llist.c", "src/lib/str/ares_str.c"],
+                      support=["vp_rt.c", "valloc.c", "memloops.c", "slist_ref.c"], unwind=max(ns, nc) + 3, kf_group="c08_srvflush",
+                      unwindset=["ares_strlen.0:2", "strlen.0:2", "memcmp.0:6", "memcpy.0:17"], witnesses=wit,
+                      bound="%d existing servers (IPv4, last byte 1..3, ports 53|54, no failures) and a new configuration of %d "
+                            "entries (last byte 1..3, ports default|53|54), PRIMARY flag or not; ONE ares_servers_update" % (ns, nc)))
     for j in J:
         j["defines"] = j.get("defines", []) + EXTRA
     return J
